@@ -164,6 +164,47 @@ function __fresh(){ __buf = Buffer.from([1,2,3,4,5,6,7,8,9,10]); __url = new URL
 			out.Notes = append(out.Notes, "stopped early: 3 calls hung")
 			break
 		}
+		if c%12 == 11 { // callbacks that re-enter the library and change the object being traversed
+			src := r.Pick([]string{"__usp", "__url.searchParams", `new URLSearchParams("a=1&b=2&c=3&a=4&d=5")`, `new URL("http://h/?x=1&y=2&x=3&z=4").searchParams`})
+			muts := []string{"p.delete(k)", `p.delete("a")`, `p.delete("x")`, `p.set(k, "n")`, `p.set("a", "1")`, `p.set("x", "1")`, "p.sort()", `p.append("q", "1")`,
+				`__url.search = ""`, `__url.search = "only=1"`, `__url.href = "http://other/?z=1"`, "throw 1", `p.forEach(function(){ p.delete("b") })`, `Array.from(p)`, `p.toString()`}
+			mut := r.Pick(muts)
+			if r.Chance(40) {
+				mut += "; " + r.Pick(muts)
+			}
+			var body string
+			switch r.Intn(3) {
+			case 0:
+				body = "p.forEach(function(v, k, o){ " + mut + " })"
+			case 1:
+				body = "for (var e of p) { var k = e[0]; " + mut + " }"
+			default:
+				body = "var it = p.keys(), x; while (!(x = it.next()).done) { var k = x.value; " + mut + " }"
+			}
+			callExpr := "var p = " + src + "; var n = 0; " + strings.Replace(body, "{ ", "{ if (++n > 50) throw 0; ", 1)
+			script := "__fresh(); (function(){ try { " + callExpr + "; return 'ok' } catch (e) { return 'throw' } })()"
+			lib.Breadcrumb(outPath, callExpr)
+			res, hung := call(script)
+			id := len(out.Cases)
+			desc := map[string]interface{}{"call": callExpr, "outcome": res.kind}
+			tags := []string{"reentrant-callback"}
+			switch {
+			case hung:
+				hangs++
+				out.Fail(id, "hang", desc, tags...)
+				vm = newVM()
+			case res.kind == "panic":
+				desc["panic"] = res.msg
+				out.Fail(id, "go-panic-escaped", desc, tags...)
+				vm = newVM()
+			case res.kind == "uncaught":
+				desc["error"] = res.msg
+				out.Fail(id, "uncatchable-error", desc, tags...)
+			}
+			out.Add("crashed", desc, true, tags...)
+			out.Count("family", "reentrant-callback")
+			continue
+		}
 		t := targets[c%len(targets)]
 		nargs := r.Intn(5)
 		var args []string
